@@ -529,6 +529,65 @@ fn sell(sh: Decimal, px: Decimal, sfl: Option<SFLInput>) -> TxActionSpecifics {
     })
 }
 
+/// Bulk positions in a cheap foreign-currency stock: 10^5..10^7 shares at a few cents or dollars,
+/// exchange rates with ten decimal places, so that per-share figures sit within 1e-9 of a whole
+/// cent while totals are large (any per-share rounding shows up in the totals).
+pub fn gen_bulk_case(r: &mut Rng) -> LedgerCase {
+    let names = ["Default", "Spouse"];
+    let uni = AffUniverse::new(&names);
+    let affs: Vec<Affiliate> = names.iter().map(|n| Affiliate::from_strep(n)).collect();
+    let mut day = BASE_JD + 500;
+    let mut txs = Vec::new();
+    let mut have = Decimal::ZERO;
+    let rate10 = |r: &mut Rng| Decimal::new(r.range(9000, 15000), 4) + Decimal::new(r.range(0, 9), 10);
+    let n = 2 + r.below(5);
+    let near_cent = r.chance(60);
+    for i in 0..n {
+        day += *r.pick(&[1, 3, 40, 100, 200]);
+        let mut px = Decimal::new(r.range(5, 999), 2);
+        let mut rate = rate10(r);
+        if near_cent {
+            // price x rate = a whole number of cents plus a few 1e-11
+            let (pn, kmax) = *r.pick(&[(50i64, 1i64), (25, 3), (20, 4), (10, 9), (5, 9)]);
+            px = Decimal::new(pn, 2);
+            rate = Decimal::new(*r.pick(&[120i64, 124, 128, 132, 136, 140]), 2) + Decimal::new(r.range(1, kmax), 10);
+        }
+        let act = if i == 0 || (r.chance(35) && i + 1 < n) {
+            let sh = Decimal::new(r.range(100_000, 10_000_000), 0);
+            have += sh;
+            TxActionSpecifics::Buy(BuyTxSpecifics {
+                shares: pos(sh),
+                amount_per_share: gez(px),
+                commission: gez(Decimal::ZERO),
+                tx_currency_and_rate: cer("USD", rate),
+                separate_commission_currency: None,
+            })
+        } else {
+            let sh = if r.chance(25) || have < Decimal::new(10, 0) {
+                have
+            } else {
+                (have * Decimal::new(r.range(1, 9), 1)).round_dp(0)
+            };
+            if sh.is_zero() {
+                continue;
+            }
+            have -= sh;
+            TxActionSpecifics::Sell(SellTxSpecifics {
+                shares: pos(sh),
+                amount_per_share: gez(px),
+                commission: gez(Decimal::ZERO),
+                tx_currency_and_rate: cer("USD", rate),
+                separate_commission_currency: None,
+                specified_superficial_loss: None,
+            })
+        };
+        let mut t = mk_tx(day, &affs[0], act);
+        t.read_index = txs.len() as u32;
+        txs.push(t);
+    }
+    LedgerCase { uni, init: None, txs }
+}
+
 /// `enum_idx`: Some(k) enumerates systematically (1 sale x 1 buy x offset x buyer kind), None = random.
 pub fn gen_window_case(r: &mut Rng, enum_idx: Option<u64>) -> LedgerCase {
     let names = ["Default", "Spouse", "Spouse (R)"];
